@@ -16,6 +16,7 @@ def g1(x: Int) -> Int raise [E1] =>
 def g2(x: Int) -> Int raise [E2] =>
     if x > 0 then raise E2("q")
     x
+def ap(fn: Int -> Int, v: Int) -> Int => fn(v)
 class K
     def mr(self, x: Int) -> Int raise [E1] =>
         if x > 0 then raise E1("p")
@@ -30,13 +31,17 @@ COVERS = [("none", None, None), ("decl-exact", "decl", "="), ("decl-ancestor", "
           ("handle-E2-then-E1", "arms", ("E2", "E1")), ("handle-E2-then-Exception", "arms", ("E2", "Exception")),
           ("handle-E1-then-Exception", "arms", ("E1", "Exception")), ("handle-E3-then-Exception", "arms", ("E3", "Exception")),
           ("handle-E2-then-E3", "arms", ("E2", "E3"))]
-POSITIONS = ["init", "if", "else", "for", "while", "match-arm", "nested-if-for"]
+POSITIONS = ["init", "if", "else", "for", "while", "match-arm", "nested-if-for", "lambda-body"]
 
 
 def body_lines(pos, expr, arms):
     """lines of the function body (relative indentation) that evaluate expr at the position, printing its value"""
     core = ["def r: Int := " + expr + (" handle" if arms else "")] + ["    " + a for a in arms] + ["print(r)"]
     ind = lambda ls, n=1: ["    " * n + l for l in ls]
+    if pos == "lambda-body":
+        # the raising call stands in the body of an anonymous function that is passed on (and called) inside the function
+        lam = "ap(\\z: Int => %s, x)" % expr.replace("(x)", "(z)")
+        return ["def r: Int := " + lam + (" handle" if arms else "")] + ["    " + a for a in arms] + ["print(r)"]
     if pos == "init":
         return core
     if pos == "if":
@@ -174,7 +179,7 @@ def run(chk):
             chk.leanchecker(["MambaVerif.Props.C08"])
     if not ok:
         return
-    scope_common.run_scope(chk, ["raise"], "Raise", 60 if thorough else 30, 6 if thorough else 4)
+    scope_common.run_scope(chk, ["raise"], "Raise", 400 if thorough else 30, 8 if thorough else 4)
     cases = matrix()
     if not thorough:
         keep = [c for c in cases if "/init/" in c[0] or c[0].startswith(("raise-", "declare/", "declare-list/", "cover-by-list/", "top-level", "after-handle", "inside-arm", "handle-in-arm"))]
